@@ -38,11 +38,6 @@ Proof.
   intros terms y H. vm_compute in H. inversion H; subst. unfold lhs_guard. cbn [forallb ttype tname].
   destruct (String.eqb_spec "Y" y) as [<-|N]; [reflexivity|reflexivity].
 Qed.
-Example called_name_breaks_lhs_guard : forall terms y, parse_equation_terms "Y = Y(1)" = Ret terms -> lhs_guard y terms = false.
-Proof.
-  intros terms y H. vm_compute in H. inversion H; subst. unfold lhs_guard. cbn [forallb ttype tname].
-  destruct (String.eqb_spec "Y" y) as [<-|N]; reflexivity.
-Qed.
 
 (* the bracket counter also runs inside fenced blocks (only the opening fence line is skipped): a verbatim block whose
    code holds an unbalanced "(" is not closed by its closing fence, and the script ends in a ParserError; a ")" raises at once *)
@@ -82,16 +77,13 @@ Example count_duplicates : eq_names duplicate_statements = ["Y"; "Y"] /\ count_n
 Proof. vm_compute. split; reflexivity. Qed.
 Example count_two_lhs : eq_names "Y,Z = 1,2" = ["Y"; "Z"] /\ count_new [] (eq_names "Y,Z = 1,2") = 2.
 Proof. vm_compute. split; reflexivity. Qed.
-Example count_called_name : eq_names "Y = Y(1)" = [] /\ count_new [] (eq_names "Y = Y(1)") = 0.
-Proof. vm_compute. split; reflexivity. Qed.
 Example count_ordinary :
   count_new [] (eq_names ordinary) = 2 /\ length (filter backticked (fst (split_M ordinary))) = 1 /\ accepted_emits ordinary = Some 3.
 Proof. vm_compute. repeat split; reflexivity. Qed.
 
-(* the exact guard on the witnesses: it fails on the three findings and holds on the ordinary script *)
+(* the exact guard on the witnesses: it fails on the two remaining findings and holds on the ordinary script *)
 Example exact_guard_values :
-  exact_count_guard duplicate_statements = false /\ exact_count_guard "Y,Z = 1,2" = false /\ exact_count_guard "Y = Y(1)" = false /\
-  exact_count_guard ordinary = true.
+  exact_count_guard duplicate_statements = false /\ exact_count_guard "Y,Z = 1,2" = false /\ exact_count_guard ordinary = true.
 Proof. vm_compute. repeat split; reflexivity. Qed.
 
 (* fences_clean: holds on ordinary scripts (fenced block included); fails on the two shapes of the ValueError finding —
